@@ -39,6 +39,8 @@ class SortedMap(MutableMapping[K, T], Generic[K, T]):
         self.values_storage = []
 
         if init_values is not None:
+            if not isinstance(init_values, Mapping):
+                init_values = dict(init_values)
             if isinstance(init_values, Mapping):
                 self.keys_storage = list(init_values.keys())
                 values = list(init_values.values())
@@ -122,7 +124,8 @@ class SortedSet(MutableSet, Generic[T]):
         if init_values is not None:
             sorted_vals = sorted(init_values)
             # check uniqueness
-            self.values.append(sorted_vals[0])
+            if len(sorted_vals) > 0:
+                self.values.append(sorted_vals[0])
             for i in range(1, len(sorted_vals)):
                 if sorted_vals[i] != sorted_vals[i - 1]:
                     self.values.append(sorted_vals[i])
